@@ -92,6 +92,19 @@ public class VOverrides {
     /* decimal strings (64-bit and beyond) compare/arith, for values TLC's 32-bit ints cannot hold */
     @TLAPlusOperator(identifier = "DecCmp", module = "VPrims", warn = false)
     public static Value deccmp(final Value a, final Value b) { return IntValue.gen(new BigInteger(str(a)).compareTo(new BigInteger(str(b)))); }
+    private static BigInteger dec(Value v) { return new BigInteger(str(v)); }
+    @TLAPlusOperator(identifier = "DecAdd", module = "VPrims", warn = false)
+    public static Value decadd(final Value a, final Value b) { return sv(dec(a).add(dec(b)).toString()); }
+    @TLAPlusOperator(identifier = "DecSub", module = "VPrims", warn = false)
+    public static Value decsub(final Value a, final Value b) { return sv(dec(a).subtract(dec(b)).toString()); }
+    @TLAPlusOperator(identifier = "DecMul", module = "VPrims", warn = false)
+    public static Value decmul(final Value a, final Value b) { return sv(dec(a).multiply(dec(b)).toString()); }
+    @TLAPlusOperator(identifier = "DecDiv", module = "VPrims", warn = false)
+    public static Value decdiv(final Value a, final Value b) { return sv(dec(a).divide(dec(b)).toString()); }
+    @TLAPlusOperator(identifier = "DecPow", module = "VPrims", warn = false)
+    public static Value decpow(final Value a, final Value n) { return sv(dec(a).pow(((IntValue) n).val).toString()); }
+    @TLAPlusOperator(identifier = "DecAbs", module = "VPrims", warn = false)
+    public static Value decabs(final Value a) { return sv(dec(a).abs().toString()); }
     @TLAPlusOperator(identifier = "StrCat", module = "VPrims", warn = false)
     public static Value strcat(final Value a, final Value b) { return sv(str(a) + str(b)); }
     @TLAPlusOperator(identifier = "SubStr", module = "VPrims", warn = false)
